@@ -308,6 +308,11 @@ def generate(vu, repo_root):
       if len(blines) != len(olines):
         raise Structural("rewrite changed the line count of fn %s" % it["name"])
       for sp in it.get("splices", []):
+        if sp.get("at_start"):
+          # right after the opening brace of the body (for proof blocks that only talk about old(self))
+          blines[1:1] = ["    " + x for x in sp["insert"]]
+          olines[1:1] = ["" for x in sp["insert"]]
+          continue
         if sp.get("at_end") or sp.get("before_tail"):
           # position-based anchors (robust against edits of the statements themselves): `at_end` = after the last
           # statement of a unit-returning body, `before_tail` = before the single-line tail expression
